@@ -28,10 +28,29 @@ def records_oracle(case, obs):
             continue
         if ri['task'] != t['slug']:
             return f'step {k}: run info of {op["name"]} names task {ri["task"]}'
-        n_in = len(ri.get('input_tasks') or {})
-        if ri['log'] is not None and ri['log'] != [{'inputs': ri['log'][0].get('inputs') if ri['log'] and isinstance(ri['log'][0], dict) else None}, 'second']:
-            return (f'step {k}: the records of {op["name"]} are {ri["log"]}; its run adds exactly two records '
-                    f'(records of other runs are present, or records are missing)')
+        log = ri['log']
+        if log is not None:
+            if not (isinstance(log, list) and len(log) == 2 and isinstance(log[0], dict) and set(log[0]) == {'inputs', 'run'}
+                    and log[1] == 'second'):
+                return (f'step {k}: the records of {op["name"]} are {log}; its run adds exactly two records '
+                        f'(records of other runs are present, or records are missing)')
+            # which run wrote the record: the ordinal it carries must fall into the latest step in which this
+            # location was run (when that step succeeded), and into some such step in any case
+            loc = f'{t["slug"]}#{t["key"]}'
+            total, windows = 0, []
+            for s2 in steps[:k + 1]:
+                n_runs = len(s2['runs'])
+                if loc in s2['runs']:
+                    windows.append((total, total + n_runs, s2['out'] != 'error'))
+                total += n_runs
+            no = log[0]['run']
+            if windows:
+                lo, hi, ok = windows[-1]
+                if ok and not lo < no <= hi:
+                    return (f'step {k}: the record of {op["name"]} is the one of run number {no}; its latest run is among runs '
+                            f'{lo + 1}..{hi} of this history - the record describes an earlier run')
+                if not any(a < no <= b for a, b, _ in windows):
+                    return f'step {k}: the record of {op["name"]} carries run number {no}, which is no run of this task ({windows})'
         chains = refs[k]
         ref = chains[op['chain']] if op['chain'] < len(chains) else None
         if ref is None or op['name'] not in ref:
@@ -85,7 +104,15 @@ class Records(Histories):
                     {'op': 'value', 'chain': 0, 'pick': 0}, {'op': 'records', 'chain': 0, 'pick': 0},
                     {'op': 'force_chain', 'chain': 0, 'picks': [0], 'recompute': True, 'delete': True},
                     {'op': 'records', 'chain': 0, 'pick': 0}, {'op': 'records', 'chain': 0, 'pick': 1}]
-        return [c, m, r]
+        # the record is read on the SAME task object between a failed forced run and the successful retry
+        q = dict(c)
+        q['ops'] = [{'op': 'build', 'base': base}, {'op': 'value', 'chain': 0, 'pick': 0}, {'op': 'records', 'chain': 0, 'pick': 0},
+                    {'op': 'force_task', 'chain': 0, 'pick': 0, 'delete': False}, {'op': 'fail', 'slugs': ['up']},
+                    {'op': 'value', 'chain': 0, 'pick': 0}, {'op': 'records', 'chain': 0, 'pick': 0},
+                    {'op': 'fail', 'slugs': []}, {'op': 'value', 'chain': 0, 'pick': 0},
+                    {'op': 'records', 'chain': 0, 'pick': 0}, {'op': 'build', 'base': base},
+                    {'op': 'records', 'chain': 1, 'pick': 0}]
+        return [c, m, r, q]
 
     def oracle(self, case, obs):
         return records_oracle(case, obs) or history_oracle(case, obs, self.checks)
